@@ -443,9 +443,16 @@ scanopen(void)
 }
 
 void
-scansetloc(struct location loc)
+scansetloc(struct location loc, size_t from)
 {
-	scanner->loc = loc;
+	/*
+	The scanner has already read the first character after the
+	directive's newline (which was on line `from`), and it may
+	have crossed further newlines doing so. Renumber relative to
+	that, instead of discarding what was counted since.
+	*/
+	scanner->loc.file = loc.file;
+	scanner->loc.line += loc.line - from;
 }
 
 static void
